@@ -23,6 +23,9 @@ Exprs(d) == IF d = 0 THEN Leaf
                    \cup {[k |-> "attr", o |-> o, dunder |-> b] : o \in S, b \in BOOLEAN}
                    \cup {[k |-> "sub", o |-> o] : o \in S}
                    \cup {[k |-> "fstr", e |-> e] : e \in S}
+                   \* the same sub-expression in the syntactic positions that are not expressions themselves: the value of a keyword
+                   \* argument, the iterable and the condition of a comprehension, the default of a lambda parameter
+                   \cup {[k |-> "pos", w |-> w, e |-> x] : w \in {"kwarg", "compiter", "compcond", "lamdefault", "kwlambda"}, x \in S}
 
 RECURSIVE Policy(_)
 Policy(e) ==
@@ -35,6 +38,8 @@ Policy(e) ==
     [] e.k = "attr" -> ~e.dunder /\ Policy(e.o)
     [] e.k = "sub" -> Policy(e.o)
     [] e.k = "fstr" -> Policy(e.e)
+    [] e.k = "pos" -> e.w \notin {"lamdefault", "kwlambda"} /\ Policy(e.e)    \* a comprehension over a throw-away target reads what its parts read; a
+                                                          \* lambda is anonymous code (and calling it is not a call by name)
 
 \* a call evaluates its function expression and its argument; a capability is exercised when a "cap" name is what is called,
 \* a dunder is reached when a dunder attribute (written out or hidden in a format field) is evaluated
@@ -46,6 +51,7 @@ Effects(e) ==
     [] e.k = "sub" -> Effects(e.o)
     [] e.k = "fstr" -> Effects(e.e)
     [] e.k = "lambda" -> {"anonymous code"}
+    [] e.k = "pos" -> Effects(e.e) \cup (IF e.w \in {"lamdefault", "kwlambda"} THEN {"anonymous code"} ELSE {})
     [] OTHER -> {}
 
 \* rendering to an abstract token string the harness concretises (N:<class> stands for every member of the class)
@@ -60,6 +66,11 @@ Show(e) ==
     [] e.k = "attr" -> Show(e.o) \o (IF e.dunder THEN ".__d__" ELSE ".p")
     [] e.k = "sub" -> Show(e.o) \o "[0]"
     [] e.k = "fstr" -> "F{" \o Show(e.e) \o "}"
+    [] e.k = "pos" -> CASE e.w = "kwarg" -> "KWARG<" \o Show(e.e) \o ">"           \* sorted('ab', key=<e>)
+                        [] e.w = "compiter" -> "COMPITER<" \o Show(e.e) \o ">"     \* ['ab' for _ in [<e>]]
+                        [] e.w = "compcond" -> "COMPCOND<" \o Show(e.e) \o ">"     \* ['ab' for _ in 'ab' if <e>]
+                        [] e.w = "lamdefault" -> "LAMDEF<" \o Show(e.e) \o ">"     \* (lambda a=<e>: 'ab')()
+                        [] e.w = "kwlambda" -> "KWLAM<" \o Show(e.e) \o ">"        \* sorted('ab', key=lambda _a: <e>): a lambda a pure builtin calls
 
 VARIABLES e, done
 Init == e \in Exprs(Depth) /\ done = FALSE
